@@ -20,7 +20,9 @@ BigOK(ev) == /\ ev.ret = ev.n /\ ev.outlen = 2 * ev.n + ((ev.n + 15) \div 16)   
 TraceInit == ti = 1
 TraceNext == /\ ti <= Len(T) /\ ti' = ti + 1
              /\ LET ev == T[ti] IN CASE ev.e = "Parse" -> ParseOK(ev) [] ev.e = "Dump" -> DumpOK(ev) [] ev.e = "Two" -> TwoOK(ev) [] ev.e = "BigDump" -> BigOK(ev)
-                                     [] ev.e = "ManyLines" -> ev.r = <<222, 173, -1, -1>>      \* a million data-less lines, then "0010: de ad": de, ad, end, end [] OTHER -> FALSE
+                                     [] ev.e = "ManyLines" -> ev.r = <<222, 173, -1, -1>>      \* a million data-less lines, then "0010: de ad": de, ad, end, end
+                                     [] ev.e = "HugeText" -> ev.r = <<165, 90, -1, -1>>        \* 2^31+5 unparsable characters on one line (or 2^32+3 blanks), then "a5 5a"
+                                     [] OTHER -> FALSE
 TraceSpec == TraceInit /\ [][TraceNext]_ti
 TraceAccepted ==
   LET d == TLCGet("stats").diameter IN
